@@ -333,6 +333,10 @@ class Interp:
         if lhs.get('k') == 'Var' and lhs['kind'] in ('local', 'param'):
             n = lhs['name']
             val = canon(rhs, st.env) if (op == '=' and rhs is not None) else None
+            if val is not None and self.cenv is not None and rhs.get('k') not in ('Lit', 'Null') and not self.is_pointer(n):
+                v = self.ceval(rhs, st)
+                if v is not None:
+                    val = str(v)
             kill(st, n)
             if val is not None and n not in ids(val) and self.track(n, val, rhs):
                 st.env[n] = val
@@ -431,10 +435,12 @@ class Interp:
     def evalc(self, e, st):
         """Yield (state, truth) for every way the condition can evaluate (short-circuit order)."""
         k = e.get('k')
-        if self.cenv is not None:
+        if self.cenv is not None and not (k == 'Un' and e['op'] == '!') and not (k == 'Bin' and e['op'] in ('&&', '||')):
             v = self.ceval(e, st)
             if v is not None:
-                yield st, bool(v)
+                s2 = st.copy()
+                self.effects(e, s2)      # the calls inside the condition still happen
+                yield s2, bool(v)
                 return
         if k == 'Un' and e['op'] == '!':
             for s, t in self.evalc(e['e'], st):
@@ -903,7 +909,11 @@ class Outcomes(Interp):
         parts = []
         if e.get('recv') is not None:
             parts.append(canon(e['recv'], st.env))
-        parts += [canon(a, st.env) for a in e.get('args', [])]
+        for a in e.get('args', []):
+            v = None
+            if a is not None and a.get('k') not in ('Lit', 'Var', 'Null', 'Str'):
+                v = self.ceval(a, st)
+            parts.append(canon(a, st.env) if v is None else str(v))
         self.ev(st, ('call', c, tuple(parts), e.get('l')))
 
     def on_assign(self, lhs, rhs, st):
